@@ -142,7 +142,7 @@ theorem beforeSignals_append (c₁ c₂ : List LogEntry) (h1 : ∀ e ∈ c₁, i
   rw [hb, takeWhile_all c₁ c₂ (fun e he => by rw [h1 e he]; rfl)]
   rcases h2 with rfl | ⟨e, rest, rfl, he⟩
   · simp
-  · simp [List.takeWhile_cons, he]
+  · simp [he]
 
 /-! ### faults are sticky -/
 
@@ -309,7 +309,7 @@ theorem selfStep (m : Nat) (ev : Event) (hev : ev ≠ .signal) (a : Fw σ) (r : 
         rcases List.mem_cons.1 he with rfl | he'
         · rfl
         · exact (ok_props e (hokT e he') m).1)]
-      have : (LogEntry.limit m v true :: cR).takeWhile (notDec m) = [] := by simp [List.takeWhile_cons, notDec]
+      have : (LogEntry.limit m v true :: cR).takeWhile (notDec m) = [] := by simp [notDec]
       rw [this, List.append_nil, hcs]
       exact hc.1
     · intro e he
@@ -451,7 +451,7 @@ theorem pe_blockingBegin (m : Nat) (a : Fw σ) (r : Runtime) (hr : a.rt[m]? = so
           by_cases hc : (fun p : Fw σ × Bool => !p.2 && notEnded p.1 m && m == m) (transition ρ FUEL m .blockingBegin s) = true
           · simp only [F, hc, if_true] at hx
             exact reach_fault_mono (decrementLimit_reach ρ m _) hx
-          · simp only [F, hc, if_false] at hx
+          · simp only [F, hc] at hx
             exact hx
         exact reach_fault_mono (transition_reach ρ FUEL m .blockingBegin s) h1
       obtain ⟨h0, c1, hl1', hn1, hrt1⟩ := hs hsf
